@@ -207,7 +207,7 @@ func child(a lib.Args, kind string) {
 				}
 			}
 			if c.Via != "" {
-				out.Distribution["via:pkg/"+c.Via]++
+				out.Distribution["via:"+map[string]string{"client": "pkg/client", "status": "pkg/status", "rwc": "internal/rwc", "file": "internal/file"}[c.Via]]++
 			}
 			out.Distribution["cancel:"+c.Cancel.P]++
 			for k, s := range c.Sched {
